@@ -9,7 +9,7 @@ From Traph Require Import Bytes Consts Layout Helpers Rules Tst TstDefs Traph Sp
   CodecFacts TstFacts Store StoreFacts StoreFacts2 RefFull LinkFacts GenStorage GenNode GenNodeFacts GenLinks
   GenLinksFacts GenTrie GenTrieFacts GenTrieW GenTrieD GenTrieDDefs GenTraphN.
 From Traph Require Import TopkFacts QueryLinks GenTrieDDfs.
-From Traph Require GenTrieWPage GenTraphLFacts.
+From Traph Require GenTrieWPage GenTraphLFacts PropsEx.
 Open Scope N_scope.
 
 Arguments N.shiftr : simpl never.
@@ -578,3 +578,350 @@ Proof.
   intros a key v g Hw. split; [|split; [exact (gwf_incr _ _ _ _ Hw)|exact (gwf_flat_nodup _ (gwf_incr _ _ _ _ Hw))]].
   apply Grel_perm. apply Grel_incr. split; [exact Hw|]. split; [exact (gwf_flat_nodup _ Hw)|reflexivity].
 Qed.
+
+(* ====================================================================================== *)
+(* 3. Traph.get_webentities_links                                                         *)
+(* ====================================================================================== *)
+Definition St1 : Type := option (py_pm * py_graph * list (N * N) * list (option N * N)).
+
+(* body of `for node, source_webentity in self.lru_trie.dfs_with_webentity_iter()` *)
+Definition body1 (v_out : bool) (st : St1) (v__it : py_node * option N) : St1 :=
+ match st with
+ | None => None
+ | Some (sg, v_graph, v_link_pointers, v_page_to_webentity) => (let '(v_node, v_source_webentity) := v__it in
+ (if (negb (py_node_is_page v_node))
+ then (Some (sg, v_graph, v_link_pointers, v_page_to_webentity))
+ else (match v_source_webentity with
+ | None => (Some (sg, v_graph, v_link_pointers, v_page_to_webentity))
+ | Some v_source_webentity => (if (N.eqb v_source_webentity 0%N)
+ then (Some (sg, v_graph, v_link_pointers, v_page_to_webentity))
+ else (let v_graph := py_graph_incr v_source_webentity (if (py_node_is_crawled v_node) then GKPagesCrawled else GKPagesUncrawled) 1%N v_graph in
+ (let v_page_to_webentity := py_bw_set (nd_block v_node) v_source_webentity v_page_to_webentity in
+ (let v_link_pointers := (if (py_node_has_links v_node v_out)
+ then (let v_link_pointers := v_link_pointers ++ [(v_source_webentity, (py_node_links v_node v_out))] in
+ v_link_pointers)
+ else v_link_pointers) in
+ (Some (sg, v_graph, v_link_pointers, v_page_to_webentity)))))) end))) end.
+
+(* body of `for target, weight in self.link_store.weighted_link_nodes_iter(links_block)` *)
+Definition body3 (v_include_auto : bool) (v_page_to_webentity : list (option N * N)) (v_source_webentity : N)
+    (st : option (py_pm * py_graph)) (v__it : option N * N) : option (py_pm * py_graph) :=
+ match st with
+ | None => None
+ | Some (sg, v_graph) => (let '(v_target, v_weight) := v__it in
+ (let v_target_webentity := py_bw_get v_target v_page_to_webentity in
+ (match v_target_webentity with
+ | None => (Some (sg, v_graph))
+ | Some v_target_webentity => (if (N.eqb v_target_webentity 0%N)
+ then (Some (sg, v_graph))
+ else (if ((negb v_include_auto) && (N.eqb v_source_webentity v_target_webentity))
+ then (Some (sg, v_graph))
+ else (let v_graph := py_graph_incr v_source_webentity (GKWe v_target_webentity) v_weight v_graph in
+ (Some (sg, v_graph))))) end))) end.
+
+(* body of `for source_webentity, links_block in link_pointers` *)
+Definition body2 (sgl : py_pm) (v_include_auto : bool) (v_page_to_webentity : list (option N * N))
+    (st : option (py_pm * py_graph)) (v__it : N * N) : option (py_pm * py_graph) :=
+ match st with
+ | None => None
+ | Some (sg, v_graph) => (let '(v_source_webentity, v_links_block) := v__it in
+ (match py_ls_weighted_link_nodes_iter sgl v_links_block with
+ | None => None
+ | Some v__stubs => (match fold_left (body3 v_include_auto v_page_to_webentity v_source_webentity) v__stubs (Some (sg, v_graph)) with
+ | None => None
+ | Some (sg, v_graph) => (Some (sg, v_graph)) end) end)) end.
+
+Lemma get_webentities_links_eq : forall sg sgl out auto,
+  py_traph_get_webentities_links sg sgl out auto =
+  match py_trie_dfs_with_webentity_iter sg with
+  | None => None
+  | Some (items, sg) =>
+      match fold_left (body1 out) items (Some (sg, [], [], [])) with
+      | None => None
+      | Some (sg, g, lps, p2w) =>
+          match fold_left (body2 sgl auto p2w) lps (Some (sg, g)) with
+          | None => None
+          | Some (sg, g) => Some (sg, g)
+          end
+      end
+  end.
+Proof. reflexivity. Qed.
+
+(* ---- the same computation over the model's lists ---- *)
+Definition pwf (ms : list (nd * N)) : list (nd * N) := filter (fun x => page (fst x) && negb (snd x =? 0)) ms.
+Definition ckey (d : nd) : py_gkey := if crawled d then GKPagesCrawled else GKPagesUncrawled.
+Definition pg0 (pw : list (nd * N)) (g : py_graph) : py_graph :=
+  fold_left (fun g (x : nd * N) => py_graph_incr (snd x) (ckey (fst x)) 1 g) pw g.
+Definition pdict (pw : list (nd * N)) (dc : list (option N * N)) : list (option N * N) :=
+  fold_left (fun dc (x : nd * N) => py_bw_set (Some (addr (fst x))) (snd x) dc) pw dc.
+Definition plps (out : bool) (pw : list (nd * N)) : list (N * N) :=
+  flat_map (fun x : nd * N => if head_dir out (fst x) =? 0 then [] else [(snd x, head_dir out (fst x))]) pw.
+Definition pinner (auto : bool) (dc : list (option N * N)) (w : N) (g : py_graph) (x : N * N) : py_graph :=
+  match py_bw_get (Some (fst x)) dc with
+  | None => g
+  | Some tw => if tw =? 0 then g else if negb auto && (w =? tw) then g else py_graph_incr w (GKWe tw) (snd x) g
+  end.
+Definition pouter (auto : bool) (dc : list (option N * N)) (st : list (N * N)) (g : py_graph) (lp : N * N) : py_graph :=
+  fold_left (pinner auto dc (fst lp)) (weighted (targets_of st (snd lp))) g.
+
+(* the model, in the same pieces *)
+Definition p2wf (pw : list (nd * N)) (a : N) : N :=
+  match List.find (fun x => addr (fst x) =? a) pw with Some (_, w) => w | None => 0 end.
+Definition minner (auto : bool) (p2w : N -> N) (w : N) (g : list (N * N * N * N)) (x : N * N) : list (N * N * N * N) :=
+  let '(tg, wt) := x in
+  let tw := p2w tg in
+  if tw =? 0 then g else if negb auto && (w =? tw) then g else gincr (w, 0, tw) wt g.
+Definition mouter (out auto : bool) (p2w : N -> N) (st : list (N * N)) (g : list (N * N * N * N)) (x : nd * N)
+    : list (N * N * N * N) :=
+  let '(d, w) := x in
+  if head_dir out d =? 0 then g
+  else fold_left (minner auto p2w w) (weighted (targets_of st (head_dir out d))) g.
+Definition mg0 (pw : list (nd * N)) (g : list (N * N * N * N)) : list (N * N * N * N) :=
+  fold_left (fun g '(d, w) => gincr (w, if crawled d then 1 else 2, 0) 1 g) pw g.
+
+Lemma webentities_links_eq : forall out auto s,
+  webentities_links out auto s =
+  let pw := pwf (dww 0 (tr s)) in
+  fold_left (mouter out auto (p2wf pw) (stubs s)) pw (mg0 pw []).
+Proof. reflexivity. Qed.
+
+(* ---- first loop ---- *)
+Lemma node_at_links : forall d l c r n out, node_at (Nd d l c r) n ->
+  py_node_has_links n out = negb (head_dir out d =? 0) /\ py_node_links n out = head_dir out d.
+Proof.
+  intros d l c r n out (_ & _ & Hd & _). unfold py_node_has_links, py_node_links, head_dir. rewrite Hd.
+  destruct out; cbn [negb]; rewrite ?GenTraphLFacts.get_out, ?GenTraphLFacts.get_in; cbn [main_block b_out b_in];
+    split; reflexivity.
+Qed.
+
+Lemma loop1_spec : forall s out items ms, Forall2 (witem_rep s) items ms ->
+  forall sg g lp dc,
+    fold_left (body1 out) items (Some (sg, g, lp, dc))
+    = Some (sg, pg0 (pwf ms) g, lp ++ plps out (pwf ms), pdict (pwf ms) dc).
+Proof.
+  intros s out items ms H. induction H as [|[n wo] [d w] items ms Hit _ IH]; intros sg g lp dc.
+  - cbn [fold_left pwf filter pg0 pdict plps flat_map]. rewrite app_nil_r. reflexivity.
+  - destruct Hit as (Hw & l & c & r & Hsub & Hn). cbn [fst snd] in Hw, Hsub, Hn.
+    cbn [fold_left body1]. rewrite (node_at_is_page _ _ _ _ _ Hn). unfold pwf. cbn [filter fst snd]. fold (pwf ms).
+    destruct (page d); cbn [negb andb]; [|apply IH].
+    rewrite Hw. destruct (w =? 0) eqn:Ew; cbn [negb]; [apply IH|]. rewrite Ew.
+    rewrite IH. pose proof Hn as (_ & Hb & _). rewrite Hb, (node_at_is_crawled _ _ _ _ _ Hn).
+    destruct (node_at_links d l c r n out Hn) as [Hh Hl]. rewrite Hh, Hl.
+    cbn [pg0 pdict plps fold_left flat_map fst snd]. unfold ckey.
+    destruct (head_dir out d =? 0); cbn [negb]; [reflexivity|]. rewrite <- app_assoc. reflexivity.
+Qed.
+
+(* ---- second loop ---- *)
+Lemma loop3_spec : forall auto dc w xs sg g,
+  fold_left (body3 auto dc w) (map lift xs) (Some (sg, g)) = Some (sg, fold_left (pinner auto dc w) xs g).
+Proof.
+  intros auto dc w. induction xs as [|[tg wt] xs IH]; intros sg g; [reflexivity|].
+  cbn [map fold_left]. change (lift (tg, wt)) with (Some tg, wt). cbn [body3]. unfold pinner at 2. cbn [fst snd].
+  destruct (py_bw_get (Some tg) dc) as [tw|]; [|apply IH].
+  destruct (tw =? 0); [apply IH|]. destruct (negb auto && (w =? tw)); apply IH.
+Qed.
+
+Lemma loop2_spec : forall sgl auto dc st lps sg g,
+  (forall w h, In (w, h) lps -> py_ls_weighted_link_nodes_iter sgl h = Some (map lift (weighted (targets_of st h)))) ->
+  fold_left (body2 sgl auto dc) lps (Some (sg, g)) = Some (sg, fold_left (pouter auto dc st) lps g).
+Proof.
+  intros sgl auto dc st. induction lps as [|[w h] lps IH]; intros sg g Hit; [reflexivity|].
+  cbn [fold_left body2]. rewrite (Hit w h (or_introl eq_refl)), loop3_spec.
+  rewrite IH; [reflexivity|]. intros w' h' Hin. apply (Hit w' h'). right. exact Hin.
+Qed.
+
+(* ---- the dict page_to_webentity is the model's p2w ---- *)
+Lemma bw_get_set : forall k v dc k', py_bw_get k' (py_bw_set k v dc) = if oN_eqb k k' then Some v else py_bw_get k' dc.
+Proof.
+  intros k v dc k'. induction dc as [|[k0 v0] dc IH].
+  - cbn [py_bw_set py_bw_get]. destruct (oN_eqb k' k) eqn:E1, (oN_eqb k k') eqn:E2; try reflexivity.
+    + destruct k, k'; cbn [oN_eqb] in *; try discriminate. apply N.eqb_eq in E1. subst. rewrite N.eqb_refl in E2. discriminate.
+    + destruct k, k'; cbn [oN_eqb] in *; try discriminate. apply N.eqb_eq in E2. subst. rewrite N.eqb_refl in E1. discriminate.
+  - assert (Heq : forall a b, oN_eqb a b = true -> a = b).
+    { intros [x|] [y|] H; cbn [oN_eqb] in H; try discriminate; [apply N.eqb_eq in H; congruence|reflexivity]. }
+    cbn [py_bw_set]. destruct (oN_eqb k k0) eqn:E0.
+    + apply Heq in E0. subst k0. cbn [py_bw_get]. destruct (oN_eqb k' k) eqn:E1.
+      * apply Heq in E1. subst k'. rewrite oN_eqb_refl. reflexivity.
+      * destruct (oN_eqb k k') eqn:E2; [apply Heq in E2; subst; rewrite oN_eqb_refl in E1; discriminate|reflexivity].
+    + cbn [py_bw_get]. rewrite IH. destruct (oN_eqb k' k0) eqn:E1; [|reflexivity].
+      apply Heq in E1. subst k'. rewrite E0. reflexivity.
+Qed.
+
+Lemma pdict_get : forall pw dc a,
+  (forall x y, In x pw -> In y pw -> addr (fst x) = addr (fst y) -> snd x = snd y) ->
+  py_bw_get (Some a) (pdict pw dc)
+  = match List.find (fun x => addr (fst x) =? a) pw with Some x => Some (snd x) | None => py_bw_get (Some a) dc end.
+Proof.
+  induction pw as [|[d w] pw IH]; intros dc a Hu; [reflexivity|].
+  cbn [pdict fold_left fst snd]. fold (pdict pw (py_bw_set (Some (addr d)) w dc)).
+  rewrite IH by (intros x y Hx Hy; apply Hu; right; assumption).
+  cbn [List.find fst]. rewrite bw_get_set. cbn [oN_eqb].
+  destruct (List.find (fun x => addr (fst x) =? a) pw) as [y|] eqn:Ef.
+  - destruct (N.eqb_spec (addr d) a) as [Ea|_]; [|reflexivity].
+    apply find_some in Ef. destruct Ef as [Hy Ey]. apply N.eqb_eq in Ey.
+    rewrite (Hu (d, w) y (or_introl eq_refl) (or_intror Hy)); [reflexivity|]. cbn [fst]. congruence.
+  - destruct (addr d =? a); reflexivity.
+Qed.
+
+Lemma pdict_p2w : forall ms a,
+  (forall x y, In x ms -> In y ms -> addr (fst x) = addr (fst y) -> snd x = snd y) ->
+  py_bw_get (Some a) (pdict (pwf ms) []) = wopt (p2wf (pwf ms) a).
+Proof.
+  intros ms a Hu. rewrite pdict_get.
+  - unfold p2wf. destruct (List.find (fun x => addr (fst x) =? a) (pwf ms)) as [[d w]|] eqn:Ef; [|reflexivity].
+    apply find_some in Ef. destruct Ef as [Hin _]. unfold pwf in Hin. apply filter_In in Hin.
+    destruct Hin as [_ Hf]. cbn [fst snd] in Hf |- *. apply andb_true_iff in Hf. destruct Hf as [_ Hf].
+    unfold wopt. apply negb_true_iff in Hf. rewrite Hf. reflexivity.
+  - intros x y Hx Hy. unfold pwf in Hx, Hy. apply filter_In in Hx, Hy. apply Hu; [exact (proj1 Hx)|exact (proj1 Hy)].
+Qed.
+
+(* ---- the graph: nested dict against flat list ---- *)
+Lemma pg0_rel : forall pw g m, Grel g m -> Grel (pg0 pw g) (mg0 pw m).
+Proof.
+  induction pw as [|[d w] pw IH]; intros g m H; [exact H|].
+  cbn [pg0 mg0 fold_left fst snd]. apply IH.
+  replace (w, if crawled d then 1 else 2, 0) with (kenc w (ckey d)) by (unfold ckey; destruct (crawled d); reflexivity).
+  apply Grel_incr. exact H.
+Qed.
+
+Lemma pinner_rel : forall auto dc p2w w, (forall a, py_bw_get (Some a) dc = wopt (p2w a)) ->
+  forall xs g m, Grel g m -> Grel (fold_left (pinner auto dc w) xs g) (fold_left (minner auto p2w w) xs m).
+Proof.
+  intros auto dc p2w w Hd. induction xs as [|[tg wt] xs IH]; intros g m H; [exact H|].
+  cbn [fold_left]. apply IH. unfold pinner, minner. cbn [fst snd]. rewrite Hd. unfold wopt.
+  destruct (p2w tg =? 0) eqn:E; [exact H|]. rewrite E.
+  destruct (negb auto && (w =? p2w tg)); [exact H|].
+  change (w, 0, p2w tg) with (kenc w (GKWe (p2w tg))). apply Grel_incr. exact H.
+Qed.
+
+Lemma pouter_rel : forall out auto dc p2w st, (forall a, py_bw_get (Some a) dc = wopt (p2w a)) ->
+  forall pw g m, Grel g m ->
+    Grel (fold_left (pouter auto dc st) (plps out pw) g) (fold_left (mouter out auto p2w st) pw m).
+Proof.
+  intros out auto dc p2w st Hd. induction pw as [|[d w] pw IH]; intros g m H; [exact H|].
+  cbn [plps flat_map fold_left mouter fst snd]. fold (plps out pw).
+  destruct (head_dir out d =? 0); cbn [app]; [apply IH; exact H|].
+  cbn [fold_left]. apply IH. unfold pouter. cbn [fst snd]. apply pinner_rel; assumption.
+Qed.
+
+(* ---- the request on the files of a state ---- *)
+Theorem get_webentities_links_on_state : forall s, Inv18 s -> root_first s ->
+  forall sg sgl out auto,
+    trep (files_of s) sg ->
+    (forall x y, In x (dww 0 (tr s)) -> In y (dww 0 (tr s)) -> addr (fst x) = addr (fst y) -> snd x = snd y) ->
+    (forall d w, In (d, w) (dww 0 (tr s)) -> head_dir out d <> 0 ->
+       py_ls_weighted_link_nodes_iter sgl (head_dir out d)
+       = Some (map lift (weighted (targets_of (stubs s) (head_dir out d))))) ->
+    exists sg' g, py_traph_get_webentities_links sg sgl out auto = Some (sg', g) /\ trep (files_of s) sg' /\
+      pm_array sg' = pm_array sg /\ Grel g (webentities_links out auto s).
+Proof.
+  intros s Hinv Hroot sg sgl out auto Hrep Hu Hit.
+  destruct (dww_iter_root s Hinv sg Hroot Hrep) as (items & sg' & E & Hrep' & Harr' & HF).
+  rewrite get_webentities_links_eq, E, (loop1_spec s out items _ HF). cbn [app].
+  rewrite (loop2_spec sgl auto _ (stubs s)).
+  - eexists. eexists. split; [reflexivity|]. split; [exact Hrep'|]. split; [exact Harr'|].
+    rewrite webentities_links_eq. cbv zeta.
+    apply pouter_rel; [intro a; apply pdict_p2w; exact Hu|].
+    apply pg0_rel. exact Grel_nil.
+  - intros w h Hin. unfold plps in Hin. apply in_flat_map in Hin. destruct Hin as ([d w'] & Hin & Hx).
+    cbn [fst snd] in Hx. destruct (N.eqb_spec (head_dir out d) 0) as [_|Hnz]; [destruct Hx|].
+    destruct Hx as [Hx|[]]. injection Hx as <- <-.
+    unfold pwf in Hin. apply filter_In in Hin. exact (Hit d w' (proj1 Hin) Hnz).
+Qed.
+
+(* ---- the main theorem: for every history ---- *)
+Theorem py_traph_get_webentities_links_spec : forall d rs h, wf_rules rs -> Forall wf_op h ->
+  let s := run d rs h in
+  forall sg sgl out auto,
+    trep (files_of s) sg -> lrep (stubs s) sgl -> fits (nb s * bsz) -> fits (saddr (length (stubs s))) ->
+    exists sg' g, py_traph_get_webentities_links sg sgl out auto = Some (sg', g) /\ trep (files_of s) sg' /\
+      pm_array sg' = pm_array sg /\ Permutation (flat g) (webentities_links out auto s).
+Proof.
+  intros d rs h Hr Hh s sg sgl out auto Hrep Hlrep Hft Hfl.
+  pose proof (run_Inv18 d rs h Hh) as Hinv. fold s in Hinv.
+  pose proof (run_root_first d rs h) as Hroot. fold s in Hroot.
+  pose proof (run_RR d rs h Hr Hh) as HRR. fold s in HRR.
+  pose proof (proj2 HRR) as HR.
+  pose proof (reachable_wf_stubs s _ HR Hft Hfl) as Hwfs.
+  pose proof (R_wf s _ (proj1 HRR)) as Hwf.
+  destruct (get_webentities_links_on_state s Hinv Hroot sg sgl out auto Hrep) as (sg' & g & E & Hrep' & Harr' & HG).
+  - intros [d1 w1] [d2 w2] H1 H2 Ea. cbn [fst snd] in *.
+    apply dww_in in H2; [|apply Hwf]. destruct H2 as (p & Hp & Hw2).
+    pose proof (dww_unique s _ HRR p d2 d1 w1 Hp H1 Ea) as Eq. rewrite Hw2. congruence.
+  - intros d0 w Hin Hnz. apply dww_in in Hin; [|apply Hwf]. destruct Hin as (p & Hp & _).
+    destruct (L_heads s _ HR p d0 Hp) as [Ho Hi]. unfold head_dir in *.
+    destruct out.
+    + destruct Ho as [E|(j & Hj & E)]; [contradiction|]. rewrite E.
+      destruct (nth_error (stubs s) j) as [x|] eqn:En; [|apply nth_error_None in En; lia].
+      exact (py_ls_weighted_spec (stubs s) sgl j x Hwfs Hlrep En).
+    + destruct Hi as [E|(j & Hj & E)]; [contradiction|]. rewrite E.
+      destruct (nth_error (stubs s) j) as [x|] eqn:En; [|apply nth_error_None in En; lia].
+      exact (py_ls_weighted_spec (stubs s) sgl j x Hwfs Hlrep En).
+  - exists sg', g. split; [exact E|]. split; [exact Hrep'|]. split; [exact Harr'|]. exact (Grel_perm _ _ HG).
+Qed.
+
+(* ====================================================================================== *)
+(* 4. non-vacuity: the translated code run on the bytes of the two files of a concrete state *)
+(* ====================================================================================== *)
+(* the state of GenTraphLFacts: two webentities (the default creation rule made them), four pages, seven links, one of
+   them inside webentity 2 and four inside webentity 1 *)
+Notation exs_n := (run Domain [] GenTraphLFacts.exh_l).
+
+(* dfs_with_webentity_iter yields the 15 (block, inherited webentity) pairs of the model, in the model's order *)
+Example ex_dww_items :
+  option_map (fun r => map (fun it => (nd_block (fst it), snd it)) (fst r))
+             (py_trie_dfs_with_webentity_iter GenTraphLFacts.ex_sgt)
+  = Some (map (fun m => (Some (addr (fst m)), wopt (snd m))) (dww 0 (tr exs_n))) /\
+  map (fun m => (addr (fst m), snd m)) (dww 0 (tr exs_n))
+  = [(128, 0); (256, 0); (384, 1); (896, 1); (1664, 1); (1920, 1); (2048, 1); (1152, 2); (1408, 2);
+     (512, 0); (640, 0); (768, 1); (1024, 1); (1280, 2); (1536, 2)].
+Proof. vm_compute. split; reflexivity. Qed.
+
+Definition e4eqb (x y : N * N * N * N) : bool := keqb (fst x) (fst y) && (snd x =? snd y).
+Definition same_entries (l l' : list (N * N * N * N)) : bool :=
+  Nat.eqb (length l) (length l') && forallb (fun x => existsb (e4eqb x) l') l && forallb (fun x => existsb (e4eqb x) l) l'.
+
+(* the flattened answer has the entries of the model's answer for every setting of the two switches *)
+Example ex_network_all_switches :
+  forallb (fun '(out, auto) =>
+             match py_traph_get_webentities_links GenTraphLFacts.ex_sgt GenTraphLFacts.ex_sgl out auto with
+             | Some (_, g) => same_entries (flat g) (webentities_links out auto exs_n)
+             | None => false
+             end) [(true, false); (false, true); (true, true); (false, false)] = true.
+Proof. vm_compute. reflexivity. Qed.
+
+(* the values: the nested dict groups the entries by source webentity, the model lists them in order of creation *)
+Example ex_network_values :
+  option_map snd (py_traph_get_webentities_links GenTraphLFacts.ex_sgt GenTraphLFacts.ex_sgl true true)
+    = Some [(1, [(GKPagesCrawled, 1); (GKPagesUncrawled, 2); (GKWe 1, 4); (GKWe 2, 2)]);
+            (2, [(GKPagesUncrawled, 1); (GKWe 1, 1)])] /\
+  option_map (fun r => flat (snd r)) (py_traph_get_webentities_links GenTraphLFacts.ex_sgt GenTraphLFacts.ex_sgl true false)
+    = Some [(1, 1, 0, 1); (1, 2, 0, 2); (1, 0, 2, 2); (2, 2, 0, 1); (2, 0, 1, 1)] /\
+  webentities_links true false exs_n = [(1, 1, 0, 1); (1, 2, 0, 2); (2, 2, 0, 1); (1, 0, 2, 2); (2, 0, 1, 1)] /\
+  option_map (fun r => flat (snd r)) (py_traph_get_webentities_links GenTraphLFacts.ex_sgt GenTraphLFacts.ex_sgl false true)
+    = Some [(1, 1, 0, 1); (1, 2, 0, 2); (1, 0, 1, 4); (1, 0, 2, 1); (2, 2, 0, 1); (2, 0, 1, 2)] /\
+  webentities_links false true exs_n = [(1, 1, 0, 1); (1, 2, 0, 2); (2, 2, 0, 1); (1, 0, 1, 4); (1, 0, 2, 1); (2, 0, 1, 2)].
+Proof. vm_compute. repeat split; reflexivity. Qed.
+
+(* the hypotheses of the theorem are met by that history and the two files, and the theorem then gives the reply above *)
+Example ex_network_by_theorem : exists sg' g,
+  py_traph_get_webentities_links GenTraphLFacts.ex_sgt GenTraphLFacts.ex_sgl true false = Some (sg', g) /\
+  trep (files_of exs_n) sg' /\ pm_array sg' = pm_array GenTraphLFacts.ex_sgt /\
+  Permutation (flat g) [(1, 1, 0, 1); (1, 2, 0, 2); (2, 2, 0, 1); (1, 0, 2, 2); (2, 0, 1, 1)].
+Proof.
+  assert (H1 : fits (nb exs_n * bsz)) by (vm_compute; reflexivity).
+  assert (H2 : fits (saddr (length (stubs exs_n)))) by (vm_compute; reflexivity).
+  pose proof (py_traph_get_webentities_links_spec Domain [] GenTraphLFacts.exh_l PropsEx.ex_rules_wf GenTraphLFacts.exh_l_wf
+                GenTraphLFacts.ex_sgt GenTraphLFacts.ex_sgl true false
+                GenTraphLFacts.ex_trep_l GenTraphLFacts.ex_lrep_l H1 H2) as H.
+  replace (webentities_links true false (run Domain [] GenTraphLFacts.exh_l))
+    with [(1, 1, 0, 1); (1, 2, 0, 2); (2, 2, 0, 1); (1, 0, 2, 2); (2, 0, 1, 1)] in H
+    by (vm_compute; reflexivity).
+  exact H.
+Qed.
+
+Print Assumptions py_trie_dfs_with_webentity_iter_spec.
+Print Assumptions Grel_incr.
+Print Assumptions Grel_perm.
+Print Assumptions py_traph_get_webentities_links_spec.
+Print Assumptions ex_network_by_theorem.
